@@ -1162,12 +1162,63 @@ fn rdiffmin<W: Write>(r: &mut Rng, n: usize, out: &mut W) -> usize {
     n
 }
 
+/// The literals of the repository's own tests (corpus/range_texts.txt, extracted once from src/*.rs): every text
+/// through both parsers with the follow-up calls, and pairs of them through the set operations.
+fn corpus<W: Write>(r: &mut Rng, n: usize, out: &mut W) -> usize {
+    let texts: Vec<String> = include_str!("../../corpus/range_texts.txt").lines().map(|l| l.replace("\\t", "\t")).collect();
+    let mut cnt = 0;
+    for t in &texts {
+        writeln!(out, "{}", json!({"op":"steps","steps":[
+            {"c":"rparse","dst":1,"text":bytes(t)}, {"c":"minv","a":1}, {"c":"sat","a":1}, {"c":"print","dst":2,"a":1},
+            {"c":"vparse","text":bytes(t)}]})).unwrap();
+        cnt += 1;
+    }
+    for _ in 0..n {
+        let a = r.pick(&texts).clone();
+        let b = r.pick(&texts).clone();
+        let op = |c: &str, d: u64, x: u64, y: u64| json!({"c":c,"dst":d,"a":x,"b":y,"nilok":true});
+        writeln!(out, "{}", json!({"op":"steps","steps":[
+            {"c":"rparse","dst":1,"text":bytes(&a)}, {"c":"rparse","dst":2,"text":bytes(&b)},
+            op("isect", 3, 1, 2), op("isect", 4, 2, 1), op("diff", 5, 1, 2), op("diff", 6, 2, 1),
+            {"c":"any","a":1,"b":2}, {"c":"all","a":1,"b":2}, {"c":"all","a":2,"b":1},
+            {"c":"minv","a":3}, {"c":"minv","a":5}, {"c":"print","dst":7,"a":3}, {"c":"print","dst":8,"a":5}, {"c":"print","dst":8,"a":6},
+            {"c":"ident","kind":"eq","l":3,"r":4}]})).unwrap();
+        cnt += 1;
+    }
+    cnt
+}
+
 fn rtext<W: Write>(r: &mut Rng, n: usize, out: &mut W) -> usize {
     for _ in 0..n {
         let max_alts = if r.chance(1, 12) { 7 } else { 3 };
         let (ast, text, vs) = range_ast(r, max_alts, true);
         writeln!(out, "{}", json!({"op":"rparse","dst":1,"text":bytes(&text),"ast":ast,
             "vs":vs.iter().map(ver_to_json).collect::<Vec<_>>()})).unwrap();
+    }
+    n
+}
+
+/// operands with many alternatives (8-24) spread over a wider pool, against small and large partners:
+/// exercises size-dependent paths (sorting, bisection, sweeps, de-duplication)
+fn bigranges<W: Write>(r: &mut Rng, n: usize, out: &mut W) -> usize {
+    for _ in 0..n {
+        let mut pool = tie_pool(r);
+        for _ in 0..(1 + r.below(3)) {
+            pool.extend(tie_pool(r));
+        }
+        let big = |r: &mut Rng, pool: &[Version], cap: u64| {
+            let k = (*r.pick(&[8u64, 9, 12, 16, 17, 24])).min(cap);
+            let ivs: Vec<(VerifSide, VerifSide)> = (0..k).map(|_| interval(r, pool)).collect();
+            bounds_to_json(&ivs)
+        };
+        let small = |r: &mut Rng, pool: &[Version]| range_struct(r, pool, 2);
+        // two large operands stay moderate (their intersection has up to |A| x |B| alternatives)
+        let (a, b) = match r.below(5) {
+            0 | 1 => (small(r, &pool), big(r, &pool, 24)),
+            2 | 3 => (big(r, &pool, 24), small(r, &pool)),
+            _ => (big(r, &pool, 9), big(r, &pool, 9)),
+        };
+        writeln!(out, "{}", json!({"op":"pair","A":a,"B":b})).unwrap();
     }
     n
 }
@@ -1180,6 +1231,7 @@ pub fn generate<W: Write>(scenario: &str, seed: u64, n: usize, out: &mut W) -> u
     let mut r = Rng(seed ^ h);
     match scenario {
         "ranges" => ranges(&mut r, n, out),
+        "bigranges" => bigranges(&mut r, n, out),
         "vorder" => vorder(&mut r, n, out),
         "vdiffs" => vdiffs(&mut r, n, out),
         "vtext" => vtext(&mut r, n, out),
@@ -1191,6 +1243,7 @@ pub fn generate<W: Write>(scenario: &str, seed: u64, n: usize, out: &mut W) -> u
         "soup" => soup(&mut r, n, out),
         "rgarbage" => rgarbage(&mut r, n, out),
         "rdiffmin" => rdiffmin(&mut r, n, out),
+        "corpus" => corpus(&mut r, n, out),
         "timing" => timing(&mut r, n, out),
         _ => {
             eprintln!("unknown scenario {}", scenario);
